@@ -114,6 +114,71 @@ def canon_sa(ctx: Ctx, cn: Canon, f, e: ast.expr) -> str:
     return t
 
 
+def _record_table(ctx: Ctx, f, gen) -> None:
+    """The candidates as a table of records built from the version table - `T = tuple(R(AwesomeVersion(v), TABLE[v]) for
+    v in <order>)`, R a NamedTuple / dataclass of the module - selected with `x.<field>` / `x.<method>(..)`: rewritten
+    to the selection over the keys it stands for (iter = <order>, fields replaced by the expressions they were built
+    from, one-expression methods of R written out)."""
+    import copy
+
+    it = gen.iter
+    if isinstance(it, ast.Name):
+        dd = ctx.prog.resolve_name(f.module, it.id)
+        if dd is not None and dd.kind == "const" and isinstance(dd.obj, ast.expr):
+            it = dd.obj
+    if isinstance(it, ast.Call) and isinstance(it.func, ast.Name) and it.func.id in ("tuple", "list") and len(it.args) == 1 and not it.keywords:
+        it = it.args[0]
+    if not (isinstance(it, (ast.GeneratorExp, ast.ListComp)) and len(it.generators) == 1 and not it.generators[0].ifs and isinstance(it.generators[0].target, ast.Name) and isinstance(it.elt, ast.Call) and isinstance(it.elt.func, ast.Name)):
+        return
+    rd = ctx.prog.resolve_name(f.module, it.elt.func.id)
+    if rd is None or rd.kind != "class":
+        return
+    flds = ctx.I.record_fields(rd.obj)
+    if flds is None or it.elt.keywords and any(k.arg not in flds for k in it.elt.keywords) or len(it.elt.args) > len(flds):
+        return
+    built = dict(zip(flds, it.elt.args))
+    built.update({k.arg: k.value for k in it.elt.keywords})
+    if set(built) != set(flds):
+        return
+    v = it.generators[0].target.id
+    x = gen.kname
+
+    class _Sub(ast.NodeTransformer):
+        def __init__(self, recv: str, extra: dict | None = None) -> None:
+            self.recv, self.extra = recv, extra or {}
+
+        def visit_Call(self, n):
+            self.generic_visit(n)
+            fn = n.func
+            if isinstance(fn, ast.Attribute) and isinstance(fn.value, ast.Name) and fn.value.id == self.recv and not n.keywords:
+                m = rd.obj.find_method(fn.attr)
+                body = [b for b in m.node.body if not (isinstance(b, ast.Expr) and isinstance(b.value, ast.Constant))] if m is not None else []
+                if m is not None and not m.node.decorator_list and len(body) == 1 and isinstance(body[0], ast.Return) and body[0].value is not None and len(m.positional_params) == len(n.args) + 1:
+                    amap = dict(zip(m.positional_params[1:], n.args))
+                    return _Sub(m.positional_params[0], amap).visit(copy.deepcopy(body[0].value))
+            return n
+
+        def visit_Attribute(self, n):
+            if isinstance(n.value, ast.Name) and n.value.id == self.recv and n.attr in built and isinstance(n.ctx, ast.Load):
+                return copy.deepcopy(built[n.attr])
+            return self.generic_visit(n)
+
+        def visit_Name(self, n):
+            if n.id in self.extra and isinstance(n.ctx, ast.Load):
+                return copy.deepcopy(self.extra[n.id])
+            return n
+
+    if any(isinstance(n, ast.Name) and n.id == x and not isinstance(ctx.prog.parents.get(n), (ast.Attribute,)) for e in (gen.elt, gen.pred) for n in ast.walk(e)):
+        return  # the record itself is used, not only its members
+    gen.elt = ast.fix_missing_locations(ast.copy_location(_Sub(x).visit(copy.deepcopy(gen.elt)), gen.elt))
+    gen.pred = ast.fix_missing_locations(ast.copy_location(_Sub(x).visit(copy.deepcopy(gen.pred)), gen.pred))
+    for e in (gen.elt, gen.pred):
+        for n in ast.walk(e):
+            if not hasattr(n, "_mod"):
+                n._mod = f.module  # type: ignore[attr-defined]
+    gen.iter, gen.kname = it.generators[0].iter, v
+
+
 def select1(ctx: Ctx, chk) -> None:
     I = ctx.I
     f = ctx.func(GET)
@@ -214,6 +279,7 @@ def select1(ctx: Ctx, chk) -> None:
         gen.iter, gen.pred, gen.default, gen.kname, gen.node = ge.generators[0].iter, ge.generators[0].ifs[0], dk[0], kn, ge
     else:
         raise AnalysisError("SELECT-1: get_protocol is neither `next((table[k] for k in <order> if <pred>), default)` nor `for k in <order>: if <pred>: return table[k]` + fallback nor `table[max((k for k in <keys> if <pred>), default=<oldest>)]`")
+    _record_table(ctx, f, gen)
     kname = gen.kname
 
     def deref(e):
